@@ -47,4 +47,14 @@ else:
 # known findings of the builder
 kf = src + "/known_findings.json"
 if os.path.exists(kf):
-    print("builder known_findings:", open(kf).read()[:3000])
+    import json
+    theirs = json.load(open(kf)); theirs = theirs["findings"] if isinstance(theirs, dict) else theirs
+    mine = json.load(open("/verif/known_findings.json"))
+    have = {(f["property"], f["match"]) for f in mine["findings"]}
+    n = 0
+    for f in theirs:
+        if (f["property"], f["match"]) in have: continue
+        if "id" not in f: f = dict(id="%s-%s" % (f["property"], f["match"][:40]), **f)
+        mine["findings"].append(f); n += 1
+    json.dump(mine, open("/verif/known_findings.json", "w"), indent=1, ensure_ascii=False)
+    print("known findings merged:", n)
